@@ -567,7 +567,12 @@ Qed.
 Theorem merge_stage s : Inv s -> NoNone s ->
   out_of (merge_duplicate_edges RnFirst MrFirst None s) = Ok ->
   let t := st_of (merge_duplicate_edges RnFirst MrFirst None s) in
-  Inv t /\ NoMulti t.
+  Inv t /\ NoMulti t /\
+  (* only merging: every remaining edge is an edge of s under its own id with the same member set, every member
+     set of s is still present, and the nodes are unchanged *)
+  (forall x mx, get x (h_edge t) = Some mx -> exists m0, get x (h_edge s) = Some m0 /\ seteq mx m0) /\
+  (forall e m0, get e (h_edge s) = Some m0 -> exists x mx, get x (h_edge t) = Some mx /\ seteq mx m0) /\
+  (forall n, In n (nkeys t) <-> In n (nkeys s)).
 Proof.
   intros I [NNn NNe] Hok. cbv zeta. split; [apply Inv_merge; exact I|].
   pose proof I as (W & (_ & _ & Kn & Ke) & _).
@@ -601,7 +606,7 @@ Proof.
       + apply no_none_members. intro Hn. destruct (Gs gm ids (firstid ids) Hg Hf) as (m & Hm & Sq).
         apply NNn. apply (members_are_nodes s (firstid ids) LNone I).
         rewrite (mems_get s (firstid ids) m (get_In_NoDup _ _ _ Ke Hm)). apply Sq. exact Hn. }
-  destruct (build_edges_effect ne [] s2 I2 Fr) as (O3 & _ & I3 & E3 & Items & Old & _).
+  destruct (build_edges_effect ne [] s2 I2 Fr) as (O3 & _ & I3 & E3 & Items & Old & NK3 & _).
   destruct (bind_ok_st r2 (fun s2 => bind (match ne with [] => ok s2 | _ :: _ => add_edges_from (EB4 ne) [] s2 end) (fun s3 => ok s3)) O2) as [Est _].
   rewrite Est. fold s2. rewrite Er.
   destruct (bind_ok_st (add_edges_from (EB4 ne) [] s2) (fun s3 => ok s3) O3) as [Est2 _]. rewrite Est2, st_of_ok.
@@ -622,14 +627,44 @@ Proof.
       rewrite G in GM. inversion GM; subst Mm. unfold ne in Hit. apply in_map_iff in Hit. destruct Hit as ([gm ids] & <- & Hp).
       cbn [item_id item_ms merged_item fst snd] in *. destruct (InM _ Hp) as [Hg Mu]. exists gm, ids. split; [exact Hg|]. split; [exact SM|].
       left. split; [exact Mu|reflexivity]. }
-  intros x y mx my Gx Gy Sq.
-  destruct (Cl x mx Gx) as (gm1 & ids1 & Hg1 & S1 & C1). destruct (Cl y my Gy) as (gm2 & ids2 & Hg2 & S2 & C2).
-  assert (Eg : (gm1, ids1) = (gm2, ids2)).
-  { apply (NoDupS_In_eq (groups s)); [exact Gk|exact Hg1|exact Hg2|]. cbn [fst]. intro a. rewrite <- (S1 a), <- (S2 a). apply Sq. }
-  inversion Eg; subst gm2 ids2.
-  destruct C1 as [[Mu1 ->]|[Mu1 Hx]]; destruct C2 as [[Mu2 ->]|[Mu2 Hy]]; try congruence.
-  unfold multi in Mu1. cbn [snd] in Mu1. destruct ids1 as [|a [|b r]]; [destruct Hx| |discriminate Mu1].
-  destruct Hx as [<-|[]]. destruct Hy as [<-|[]]. reflexivity.
+  split.
+  { intros x y mx my Gx Gy Sq.
+    destruct (Cl x mx Gx) as (gm1 & ids1 & Hg1 & S1 & C1). destruct (Cl y my Gy) as (gm2 & ids2 & Hg2 & S2 & C2).
+    assert (Eg : (gm1, ids1) = (gm2, ids2)).
+    { apply (NoDupS_In_eq (groups s)); [exact Gk|exact Hg1|exact Hg2|]. cbn [fst]. intro a. rewrite <- (S1 a), <- (S2 a). apply Sq. }
+    inversion Eg; subst gm2 ids2.
+    destruct C1 as [[Mu1 ->]|[Mu1 Hx]]; destruct C2 as [[Mu2 ->]|[Mu2 Hy]]; try congruence.
+    unfold multi in Mu1. cbn [snd] in Mu1. destruct ids1 as [|a [|b r]]; [destruct Hx| |discriminate Mu1].
+    destruct Hx as [<-|[]]. destruct Hy as [<-|[]]. reflexivity. }
+  split.
+  { intros x mx Gx. destruct (Cl x mx Gx) as (gm & ids & Hg & S1 & C1).
+    assert (Hx : In x ids).
+    { destruct C1 as [[Mu ->]|[_ Hx]]; [|exact Hx]. apply (Fid (gm, ids)). apply filter_In. auto. }
+    destruct (Gs gm ids x Hg Hx) as (m0 & Hm0 & Sq). exists m0. split; [apply (get_In_NoDup _ _ _ Ke Hm0)|].
+    intro a. rewrite (S1 a). apply Sq. }
+  split.
+  { intros e m0 Ge. destruct (Gc e m0 (get_In _ _ _ Ge)) as (gm & ids & Hg & Hi & Sq).
+    destruct (multi (gm, ids)) eqn:Mu.
+    - assert (Hp : In (gm, ids) M) by (apply filter_In; auto).
+      destruct (Items (merged_item s (gm, ids))) as [(Mm & GM & SM & _) _].
+      { unfold ne. apply in_map. exact Hp. }
+      cbn [item_id item_ms merged_item fst snd] in GM, SM. exists (firstid ids), Mm. split; [exact GM|].
+      intro a. rewrite (SM a). apply Sq.
+    - assert (Hnd : ~ In e (flat_map snd M)).
+      { intro Hd. apply in_flat_map in Hd. destruct Hd as ([gm' ids'] & Hp' & He'). destruct (InM _ Hp') as [Hg' Mu'].
+        destruct (Gs gm' ids' e Hg' He') as (m1 & Hm1 & S1). 
+        assert (m1 = m0) by (pose proof (get_In_NoDup _ _ _ Ke Hm1); congruence). subst m1.
+        assert (Eg : (gm', ids') = (gm, ids)).
+        { apply (NoDupS_In_eq (groups s)); [exact Gk|exact Hg'|exact Hg|]. cbn [fst]. intro a. rewrite (S1 a). symmetry. apply Sq. }
+        inversion Eg; subst. congruence. }
+      assert (G2 : get e (h_edge s2) = Some m0).
+      { rewrite T2. apply mem_nIn in Hnd. rewrite Hnd. exact Ge. }
+      destruct (Old e (get_Some_In e (h_edge s2) m0 G2)) as [Go _]. exists e, m0. split; [rewrite Go; exact G2|intro; tauto]. }
+  intro n. rewrite (NK3 n). rewrite N2. split; [|intro H; left; exact H].
+  intros [H|(it & Hit & Hm)]; [exact H|]. unfold ne in Hit. apply in_map_iff in Hit. destruct Hit as ([gm ids] & <- & Hp).
+  cbn [item_ms merged_item fst snd] in Hm. destruct (InM _ Hp) as [Hg _]. pose proof (Fid _ Hp) as Hf. cbn [snd] in Hf.
+  destruct (Gs gm ids (firstid ids) Hg Hf) as (m & Hm' & Sq).
+  apply (members_are_nodes s (firstid ids) n I). rewrite (mems_get s (firstid ids) m (get_In_NoDup _ _ _ Ke Hm')). apply Sq. exact Hm.
 Qed.
 
 Lemma SubTable_refl s : SubTable s s.
@@ -662,7 +697,7 @@ Proof.
   assert (F1 : Inv s1 /\ (multi = false -> NoMulti s1)).
   { unfold s1. destruct multi.
     - rewrite st_of_ok. split; [exact I|discriminate].
-    - destruct (merge_stage s I NN O1) as [A B]. split; [exact A|intros _; exact B]. }
+    - destruct (merge_stage s I NN O1) as (A & B & _). split; [exact A|intros _; exact B]. }
   destruct F1 as [I1 M1].
   (* stage 2 *)
   destruct (bind_out_ok _ _ Hok1) as (O2 & Hok2 & E2). rewrite E2. clear E2 Hok1.
